@@ -655,8 +655,8 @@ Section Count.
             assert (HF : has_flatten fields = true) by (unfold has_flatten; apply existsb_exists; exists g; split; [eapply nth_error_In; exact Ng|exact Fg]).
             destruct (loop_is_spec sugg sim interp_with interp_fn fields convs auk items st1 L) as [_ [_ Fl]].
             rewrite Fl, (spec_flat_unclaimed HF) in SH.
-            pose proof (IHk_nth i g _ Hg (dummy_list unclaimed) eq_refl) as K. unfold dummy_list in K.
-            rewrite from_meta_list in K by (now apply flat_target_meta). fold (dummy_list unclaimed) in K.
+            pose proof (IHk_nth i g _ Hg (dummy_list unclaimed) eq_refl) as K.
+            rewrite flat_meta_list in K by exact FT.
             destruct (from_list (impl gt) unclaimed) as [v|e|m]; cbn [map_err] in K; [| |destruct SH].
             * subst stf. cbn [ps_errs ps_slots]. rewrite nth_set_slot_same by exact Li. rewrite K, N.sub_diag.
               unfold check_one. destruct (needs_check g), (fi_multiple g); cbn; reflexivity.
@@ -738,8 +738,8 @@ Section Count.
           destruct (from_list (impl gt) (ps_flat st1)) as [v|e|m] eqn:R; [now subst stf| |destruct SH].
           destruct SH as [e' [Le ->]]. cbn [ps_errs]. apply Forall_app. split; [exact P1|]. constructor; [|constructor]. rewrite Le.
           pose proof (FS g gt (nth_error_In _ _ Hg) Fg) as FT.
-          pose proof (IHk_nth i g _ Hg (dummy_list (ps_flat st1)) eq_refl) as K. unfold dummy_list in K.
-          rewrite from_meta_list in K by (now apply flat_target_meta). rewrite R in K. cbn [map_err] in K. rewrite len_with_span in K. apply K.
+          pose proof (IHk_nth i g _ Hg (dummy_list (ps_flat st1)) eq_refl) as K.
+          rewrite flat_meta_list in K by exact FT. rewrite R in K. cbn [map_err] in K. rewrite len_with_span in K. apply K.
         - apply check_all_pos.
       Qed.
     End Run.
